@@ -153,14 +153,19 @@ func (r *Run) compareDigests() {
 	}
 	r.M.Counters["histories_compared_across_processes"] = int64(len(byID))
 	for id, dgs := range byID {
+		if len(dgs) == 1 && (dgs["WRITE-FAILED"] || dgs["READ-FAILED"]) {
+			r.M.Inconclusive = append(r.M.Inconclusive, fmt.Sprintf("history %s fails in every process, whatever ran before it (a C01 matter): %v", id, sortedKeys(r.M.Sets["history_failures"])))
+			continue
+		}
 		if len(dgs) > 1 {
 			var l []string
 			for d := range dgs {
 				l = append(l, d)
 			}
 			r.M.Violations = append(r.M.Violations, Violation{Prop: "C13", Key: "mode=indep;kind=bytes_differ_between_processes", Case: "indep/" + id,
-				Detail: fmt.Sprintf("history %s produced %d different byte streams in processes that had executed other histories before it (digests %v): the output depends on what other instances did earlier in the process", id, len(dgs), l)})
+				Detail: fmt.Sprintf("history %s had %d different outcomes in processes that had executed other histories (and failed operations of other instances) before it (%v): the output depends on what other instances did earlier in the process; failures seen: %v", id, len(dgs), l, clipStr(fmt.Sprint(sortedKeys(r.M.Sets["history_failures"])), 1200))})
 		}
 	}
 	delete(r.M.Sets, "history_digests")
+	delete(r.M.Sets, "history_failures")
 }
